@@ -136,19 +136,21 @@ def readIds : Nat → Nat → Bytes → Outcome (List Nat × Bytes)
     | .err => .err
     | .panic => .panic
 
-/-- the offset loop: `tmp == 0` (not first) → previous offset + previous length (unchecked),
-    otherwise `tmp - 1` (unchecked: a leading 0 underflows) -/
+/-- one value of the offset column: `tmp == 0` (not first) → previous offset + previous length
+    (unchecked), otherwise `tmp - 1` (unchecked: a leading 0 underflows) -/
+def offOf (prev : Option (Nat × Nat)) (t : Nat) : Outcome Nat :=
+  match prev, t with
+  | some (po, pl), 0 => if po + pl ≥ U64 then .panic else .ok (po + pl)
+  | none, 0 => .panic
+  | _, t' + 1 => .ok t'
+
+/-- the offset loop of `from_blob` -/
 def readOffsets : (lens : List Nat) → (prev : Option (Nat × Nat)) → Bytes → Outcome (List Nat × Bytes)
   | [], _, bs => .ok ([], bs)
   | l :: ls, prev, bs =>
     match readVarint bs with
     | .ok (t, r) =>
-      let off : Outcome Nat :=
-        match prev, t with
-        | some (po, pl), 0 => if po + pl ≥ U64 then .panic else .ok (po + pl)
-        | none, 0 => .panic
-        | _, t' + 1 => .ok t'
-      match off with
+      match offOf prev t with
       | .ok o =>
         match readOffsets ls (some (o, l)) r with
         | .ok (os, r') => .ok (o :: os, r')
@@ -183,18 +185,21 @@ def encIds : Nat → List Entry → Outcome Bytes
       | .err => .err
       | .panic => .panic
 
-/-- offset column: 0 when the entry follows the previous one, else `offset + 1` (both unchecked) -/
+/-- one value of the offset column: 0 when the entry follows the previous one, else `offset + 1`
+    (both additions unchecked) -/
+def offVal (prev : Option Entry) (e : Entry) : Outcome Nat :=
+  match prev with
+  | some p =>
+    if p.off + p.len ≥ U64 then .panic
+    else if e.off = p.off + p.len then .ok 0
+    else if e.off + 1 ≥ U64 then .panic else .ok (e.off + 1)
+  | none => if e.off + 1 ≥ U64 then .panic else .ok (e.off + 1)
+
+/-- offset column of `serialize_entries` -/
 def encOffsets : Option Entry → List Entry → Outcome Bytes
   | _, [] => .ok []
   | prev, e :: es =>
-    let v : Outcome Nat :=
-      match prev with
-      | some p =>
-        if p.off + p.len ≥ U64 then .panic
-        else if e.off = p.off + p.len then .ok 0
-        else if e.off + 1 ≥ U64 then .panic else .ok (e.off + 1)
-      | none => if e.off + 1 ≥ U64 then .panic else .ok (e.off + 1)
-    match v with
+    match offVal prev e with
     | .ok v =>
       match encOffsets (some e) es with
       | .ok r => .ok (varintEnc v ++ r)
